@@ -921,11 +921,17 @@ namespace fixedmath
       x = -x;
       sign_ = true;
       }
-    //normalize the range to phi/2
+    //normalize the range to phi
     x = detail::tan_range(x);
     
     if( fixed_likely( x != fixpidiv2.v ) )
       {
+      //fold phi/2 .. phi into 0 .. phi/2, tan(x) = -tan(phi-x), series are valid only up to phi/4
+      if( x > fixpidiv2.v )
+        {
+        x = phi.v - x;
+        sign_ = !sign_;
+        }
       fixed_internal res_tan {};
       if( x <= fixpidiv4.v )
         res_tan = tan_<prec_+prec_inc>(x<<prec_inc)>>prec_inc;
@@ -936,7 +942,8 @@ namespace fixedmath
       return as_fixed(res_tan);
        }
     else
-      return quiet_NaN_result();
+      return sign_ ? -quiet_NaN_result() : quiet_NaN_result(); //tan is odd at the pole too
+
     }
     
   //------------------------------------------------------------------------------------------------------
